@@ -2,7 +2,8 @@ package ss2022
 
 // C04 — sliding window filter.
 
-// vfC04_History: K symbolic packet IDs from the initial state against set semantics.
+// vfC04_History: K symbolic packet IDs from the initial state against set semantics
+// (representation independent cross-check of the inductive step below).
 func vfC04_History() {
 	size := uint64(vfCase("S"))
 	k := vfCase("K")
@@ -14,20 +15,76 @@ func vfC04_History() {
 		c := vfU64("c")
 		seen := false
 		for j := 0; j < i; j++ {
-			if acc[j] && ids[j] == c {
-				seen = true
-			}
+			seen = vfOr(seen, vfAnd(acc[j], ids[j] == c))
 		}
-		want := c > last || (last-c < size && !seen)
-		// counter 0 before anything was added: last==0, 0-0<size, not seen -> accepted
+		want := vfOr(c > last, vfAnd(last-c < size, !seen))
 		ok := f.IsOk(c)
 		got := f.Add(c)
 		vfAssert(ok == got, "IsOk agrees with Add")
 		vfAssert(got == want, "Add verdict equals set semantics")
 		ids[i], acc[i] = c, got
-		if got && c > last {
-			last = c
+		last = vfIte(vfAnd(got, c > last), c, last)
+	}
+	vfReach("end")
+}
+
+func vfC04bit(f *SlidingWindowFilter, x uint64) bool {
+	return f.ring[f.blockIndex(x)]&(1<<f.bitIndex(x)) != 0
+}
+
+// vfC04inv is the representation invariant instantiated at one id x:
+//   x in the window        => its ring bit says whether x was delivered
+//   x ahead, in last's block => its ring bit is clear
+//   delivered ids are never ahead of last
+func vfC04inv(f *SlidingWindowFilter, x uint64, seenX bool) bool {
+	inWin := vfAnd(x <= f.last, f.last-x < f.size)
+	a := vfImp(inWin, vfC04bit(f, x) == seenX)
+	b := vfImp(vfAnd(x > f.last, f.unmaskedBlockIndex(x) == f.unmaskedBlockIndex(f.last)), !vfC04bit(f, x))
+	c := vfImp(seenX, x <= f.last)
+	return vfAnd(a, vfAnd(b, c))
+}
+
+// vfC04_Step: ONE operation from an ARBITRARY filter state satisfying the invariant (so histories
+// of any length are covered): verdict equals set semantics and the invariant is preserved at an
+// arbitrary witness id.  mode 0: Add; mode 1: IsOk then MustAdd when ok.
+func vfC04_Step() {
+	size := uint64(vfCase("S"))
+	mode := vfCase("mode")
+	f := NewSlidingWindowFilter(size)
+	f.last = vfU64("last")
+	for i := range f.ring {
+		f.ring[i] = uint(vfU64("ring"))
+	}
+	c, w := vfU64("c"), vfU64("w")
+	seenC, seenW := vfUFBool("seen", c), vfUFBool("seen", w)
+	vfAssume(vfC04inv(f, c, seenC))
+	vfAssume(vfC04inv(f, w, seenW))
+	last0 := f.last
+	want := vfOr(c > last0, vfAnd(last0-c < size, !seenC))
+	var got bool
+	if mode == 0 {
+		got = f.Add(c)
+	} else {
+		got = f.IsOk(c)
+		if got {
+			f.MustAdd(c)
 		}
 	}
+	vfAssert(got == want, "verdict equals set semantics (fresh accepted, replay refused)")
+	seenW2 := vfOr(seenW, vfAnd(got, w == c))
+	vfAssert(vfC04inv(f, w, seenW2), "representation invariant preserved at witness id")
+	vfAssert(vfImp(!got, f.last == last0), "refused packet leaves last unchanged")
+	vfReach("end")
+}
+
+// vfC04_Init: the constructor establishes the invariant with nothing delivered, and Reset restores it.
+func vfC04_Init() {
+	size := uint64(vfCase("S"))
+	f := NewSlidingWindowFilter(size)
+	w := vfU64("w")
+	vfAssert(vfC04inv(f, w, false), "invariant holds initially")
+	vfAssert(uint64(len(f.ring))*64 >= size+63, "ring covers window plus one spare block")
+	vfAssert(f.ringBlockIndexMask == uint64(len(f.ring))-1, "mask matches ring")
+	vfAssert(uint64(len(f.ring))&(uint64(len(f.ring))-1) == 0, "ring length is a power of two")
 	vfReach("end")
 }
